@@ -431,6 +431,21 @@ def gate_call(pt, a_spec, b_spec):
         return False
 
 
+def gate_call_after_good(pt, a_spec, b_spec):
+    """the SAME subroutine object first called with a correctly typed argument (an instance of b itself), then with an
+    instance of a: the decision must not depend on what the routine was called with before -> True if the second is accepted"""
+    def f(x):
+        return pt.Approve()
+    f.__annotations__ = {"x": b_spec.annotation_type(), "return": pt.Expr}
+    sub = pt.Subroutine(pt.TealType.none)(f)
+    sub(b_spec.new_instance())
+    try:
+        sub(a_spec.new_instance())
+        return True
+    except pt.TealInputError:
+        return False
+
+
 def gate_method_call(pt, abi, a_spec, sig_b):
     """InnerTxnBuilder.MethodCall with an ABI value of spec a for a parameter of signature
     sig_b -> (accepted, spec PyTeal derived from the signature)"""
@@ -581,7 +596,7 @@ def run(tier: str) -> int:
     # (6) gate through a real subroutine call
     rg = rng("c19-gate")
     rg.shuffle(gate_todo)
-    gate_n, gate_bad = 0, 0
+    gate_n, gate_bad, gate_hist_n = 0, 0, 0
     for oa, ob, real_asg, a, b in gate_todo[: (1500 if thorough else 300)]:
         try:
             got = gate_call(pt, oa, ob)
@@ -593,6 +608,17 @@ def run(tier: str) -> int:
             if gate_bad <= 3:
                 rep.violation(f"subroutine call with argument {oa} for parameter {ob}: accepted={got} but type_spec_is_assignable_to={real_asg}",
                               {"a": a, "b": b, "str_a": str(oa), "str_b": str(ob), "kind": "gate"})
+        # the same question to a routine that has already accepted a correctly typed argument
+        try:
+            got2 = gate_call_after_good(pt, oa, ob)
+        except Exception:  # noqa: BLE001
+            continue
+        gate_hist_n += 1
+        if got2 != (real_asg == "1"):
+            gate_bad += 1
+            if gate_bad <= 6:
+                rep.violation(f"subroutine first called with a {ob}, then with argument {oa} for the same parameter: accepted={got2} but "
+                              f"type_spec_is_assignable_to={real_asg}", {"a": a, "b": b, "str_a": str(oa), "str_b": str(ob), "kind": "gate-after-good"})
 
     # (6b) gate through InnerTxnBuilder.MethodCall (itxn.py:469 and :397)
     mc_n, mc_bad = 0, 0
@@ -631,6 +657,7 @@ def run(tier: str) -> int:
         "correspondence_mismatches": mismatches,
         "accepted_pairs_violating_the_property": violations,
         "gate_calls": gate_n,
+        "gate_calls_after_a_good_call_of_the_same_routine": gate_hist_n,
         "gate_method_calls": mc_n,
         "gate_txn_argument_cases": tn,
         "rule": "real type_spec_is_assignable_to / == / str / type on real TypeSpec objects == Lean model, for every pair; "
